@@ -134,6 +134,14 @@ theorem C03_seq_copy_eq (s : Seq α) : s.beq s = true := by simp [Seq.beq]
 theorem C03_seq_eq (a b : Seq α) : a.beq b = true ↔ a = b := by
   cases a; cases b; simp [Seq.beq, and_assoc]
 
+/-- `==` agrees with the symbol strings *and* class and alphabet: two valid sequences are equal iff
+they have the same class, the same alphabet and the same symbol string.  In particular sequences
+over different alphabets are unequal even when their code arrays coincide. -/
+theorem C03_seq_eq_symbols (a b : Seq α) (hnd : a.alph.Nodup) (x y : List α)
+    (ha : a.symbols = .ok x) (hb : b.symbols = .ok y) :
+    a.beq b = true ↔ a.kind = b.kind ∧ a.alph = b.alph ∧ x = y :=
+  beq_iff_symbols a b hnd x y ha hb
+
 /-- Python/numpy index normalisation: `0 ≤ i < n` → `i`, `-n ≤ i < 0` → `i + n`, otherwise `IndexError`. -/
 theorem C03_seq_index_norm (n : Nat) (i : Int) :
     (0 ≤ i → i < n → normIndex n i = .ok i.toNat) ∧
@@ -393,6 +401,38 @@ theorem C03_upto_stop (stop : Nat) (ps : List Nat) :
       (stop ∈ ps → (uptoStop stop ps).getLast? = some stop) ∧ (stop ∉ ps → rest = []) :=
   uptoStop_spec stop ps
 
+/-- **Derived tables are independent values.**  `with_codon_mappings` returns a table with the same
+start codons and 64 entries that differs from the original *only* at the codon numbers of the given
+items — where (for distinct codons) it holds the new amino acids; `with_start_codons` keeps every
+codon entry.  The original is a value and is not an output of either function: in the model (and
+in the driver, where the derived table goes to a second register) it cannot change; that the real
+table it was derived from is unchanged is checked op by op (`c_show`, `c_tr` after `c_derive_*`). -/
+theorem C03_derive_independent (nuc prot : List Nat) (t : CodonTable) :
+    (∀ t' d, t.withMappings nuc prot d = .ok t' →
+      t'.starts = t.starts ∧ t'.codons.length = t.codons.length ∧
+      (∀ m : Nat, (∀ e ∈ d, ∀ m' a, entryNum nuc prot e = .ok (m', a) → m' ≠ m) → t'.codons[m]? = t.codons[m]?) ∧
+      (nuc.Nodup → nuc.length = 4 → (d.map (·.1)).Nodup →
+        ∀ e ∈ d, ∀ m a, entryNum nuc prot e = .ok (m, a) → m < t.codons.length → t'.codons[m]? = some a)) ∧
+    (∀ t' starts, t.withStarts nuc starts = .ok t' → t'.codons = t.codons) := by
+  constructor
+  · intro t' d h
+    obtain ⟨h1, h2, h3, h4⟩ := withMappings_spec nuc prot t t' d h
+    refine ⟨h1, h2, h3, fun hnd hn4 hk => h4 ?_⟩
+    have hk' : d.Pairwise fun e1 e2 => e1.1 ≠ e2.1 := List.pairwise_map.mp hk
+    refine hk'.imp ?_
+    intro e1 e2 hne m1 a1 m2 a2 he1 he2 heq
+    subst heq
+    exact hne (entryNum_inj nuc prot hnd hn4 e1 e2 m1 a1 a2 he1 he2)
+  · intro t' starts h
+    unfold CodonTable.withStarts at h
+    split at h
+    · simp at h
+    · split at h
+      · simp at h
+      · split at h
+        · simp at h
+        · simp only [Except.ok.injEq] at h; subst h; rfl
+
 /-- The radix-4 codon number is a bijection between codons and `0..63` (`_to_number` / `_to_codon`). -/
 theorem C03_codon_number_bijection :
     (∀ a b c, a < 4 → b < 4 → c < 4 → numberToCodon (16 * a + 4 * b + c) = [a, b, c]) ∧
@@ -521,6 +561,11 @@ example : (codonTableOfRows [65, 67, 71, 84] Gen.C03.protAlph (List.replicate 64
       ((List.range 64).map fun i => [65, 67, 71, 84][i % 4]!)).bind
       (fun t => translateOrfs t 23 10 false [0, 0, 0, 1, 2, 0, 0, 0]) =
     .ok [⟨0, 6, [8, 8]⟩, ⟨5, 8, [8]⟩] := by decide +kernel
+example : (Seq.mk 0 [65, 67, 71, 84] [0, 0, 1, 2, 3]).beq (Seq.mk 0 [84, 71, 67, 65] [0, 0, 1, 2, 3]) = false ∧
+    (Seq.mk 0 [65, 67, 71, 84] [0, 0, 1, 2, 3]).symbols = .ok [65, 65, 67, 71, 84] ∧
+    (Seq.mk 0 [84, 71, 67, 65] [0, 0, 1, 2, 3]).symbols = .ok [84, 84, 71, 67, 65] := by decide
+example : ((CodonTable.mk (List.replicate 64 8) [14]).withMappings [65, 67, 71, 84] Gen.C03.protAlph [([84, 71, 65], 87)]).map
+    (fun t => (t.codons[56]?, t.codons[55]?, t.starts)) = .ok (some 18, some 8, [14]) := by decide +kernel
 example : numberToCodon 53 = [3, 1, 1] ∧ codonNumber [3, 1, 1] = some 53 := by decide
 example : complementCodes Gen.C03.nucAmb Gen.C03.complDict [0, 4, 14] = .ok [3, 5, 14] := by decide +kernel
 
